@@ -186,4 +186,51 @@ def trace (cfg : Cfg) : St → List Op → List (Outcome × List Wr × Table)
     let r := step cfg s op
     (r.2.1, r.2.2, r.1.table) :: trace cfg r.1 ops
 
+/-! ### initialisation, and several terminals on one bus
+
+`Terminal.initialize` reads the number of FMMUs the hardware reports (register 4), creates the slot table with exactly
+that many free slots and switches every FMMU off:
+
+    fmmu_no, = await self.read(4, "B")
+    self.fmmu_used = [None] * fmmu_no
+    for i in range(fmmu_no):
+        await self.write(0x60c + 0x10 * i, "B", 0)
+
+Every `Terminal` object has a slot table of its own. -/
+
+/-- the register writes of `initialize` in the FMMU block -/
+def initWrites (n : Nat) : List Wr := (List.range n).map fun (i : Nat) => deactivateWr (i : Int)
+
+/-- one terminal of the bus: its process-data window and its FMMU state -/
+structure Term where
+  cfg : Cfg
+  st : St
+deriving Repr, DecidableEq
+
+abbrev Bus := List Term
+
+/-- all terminals initialised: terminal `i` reports `(ts[i]).1` FMMUs -/
+def busInit (ts : List (Nat × Cfg)) : Bus := ts.map fun t => ⟨t.2, init t.1⟩
+
+/-- an operation on terminal `i` (no such terminal: nothing happens) -/
+def busStepAt (b : Bus) (i : Nat) (op : Op) : Option Term → Bus × Outcome × List Wr
+  | none => (b, .noop, [])
+  | some t => (b.set i { t with st := (step t.cfg t.st op).1 }, (step t.cfg t.st op).2)
+
+def busStep (b : Bus) (o : Nat × Op) : Bus × Outcome × List Wr := busStepAt b o.1 o.2 b[o.1]?
+
+def busRun : Bus → List (Nat × Op) → Bus
+  | b, [] => b
+  | b, o :: os => busRun (busStep b o).1 os
+
+/-- per operation: the terminal, outcome, register writes (all on that terminal), its slot table afterwards -/
+def busTrace : Bus → List (Nat × Op) → List (Nat × Outcome × List Wr × Table)
+  | _, [] => []
+  | b, o :: os =>
+    let r := busStep b o
+    (o.1, r.2.1, r.2.2, ((r.1[o.1]?).map (·.st.table)).getD []) :: busTrace r.1 os
+
+/-- the operations of a bus history that address terminal `i` -/
+def opsOf (i : Nat) (os : List (Nat × Op)) : List Op := (os.filter (·.1 == i)).map (·.2)
+
 end Ebv.Fmmu
